@@ -1,0 +1,109 @@
+//go:build verif
+
+// Contracts for the gRPC authentication interceptors (C13), checked by /verif (govc).
+// Comment-only file.
+//
+// userSecret(u) is the htpasswd entry of user u ("" if there is none) and
+// secretMatches(p, s) the verdict of the password hash comparison; both are
+// uninterpreted (library behaviour). What is proved is that the request handler is
+// only ever invoked for the health method, for a read-only method when unauthenticated
+// reads are allowed, or with credentials that passed both tests.
+
+package server
+
+//@ extern field:server.GrpcBasicAuth.secrets(user, realm)
+//@   pure
+//@   ensures result == userSecret(user)
+
+//@ extern github.com/abbot/go-http-auth.CheckSecret(password, secret)
+//@   pure
+//@   ensures result == secretMatches(password, secret)
+
+//@ pred credsOK(u, p) = u != "" && p != "" && userSecret(u) != "" && secretMatches(p, userSecret(u))
+
+//@ func (b *GrpcBasicAuth) allowed(username, password string) bool
+//@   serves C13
+//@   requires b != nil && b.secrets != nil
+//@   ensures[C13] exact: result <==> (userSecret(username) != "" && secretMatches(password, userSecret(username)))
+
+// The methods that may be called without credentials when unauthenticated reads are allowed:
+// exactly the six read-only methods of the REAPI / ByteStream services.
+//@ pred isReadOnlyMethod(m) = m == "/build.bazel.remote.execution.v2.ActionCache/GetActionResult" ||
+//@     m == "/build.bazel.remote.execution.v2.ContentAddressableStorage/FindMissingBlobs" ||
+//@     m == "/build.bazel.remote.execution.v2.ContentAddressableStorage/BatchReadBlobs" ||
+//@     m == "/build.bazel.remote.execution.v2.ContentAddressableStorage/GetTree" ||
+//@     m == "/build.bazel.remote.execution.v2.Capabilities/GetCapabilities" ||
+//@     m == "/google.bytestream.ByteStream/Read"
+
+//@ func (b *GrpcBasicAuth) UnaryServerInterceptor(ctx context.Context, req interface{}, info *grpc.UnaryServerInfo, handler grpc.UnaryHandler) (interface{}, error)
+//@   serves C13
+//@   requires b != nil && b.secrets != nil && info != nil && handler != nil && ctx != nil
+//@   call handler#0 asserts[C13] health: info.FullMethod == "/grpc.health.v1.Health/Check"
+//@   call handler#1 asserts[C13] readonly: b.allowUnauthenticatedReadOnly && has(readOnlyMethods, info.FullMethod)
+//@   call handler#2 asserts[C13] authenticated: credsOK(username, password)
+
+//@ func (b *GrpcBasicAuth) StreamServerInterceptor(srv interface{}, ss grpc.ServerStream, info *grpc.StreamServerInfo, handler grpc.StreamHandler) error
+//@   serves C13
+//@   requires b != nil && b.secrets != nil && info != nil && handler != nil && ss != nil
+//@   call handler#0 asserts[C13] health: info.FullMethod == "/grpc.health.v1.Health/Check"
+//@   call handler#1 asserts[C13] readonly: b.allowUnauthenticatedReadOnly && has(readOnlyMethods, info.FullMethod)
+//@   call handler#2 asserts[C13] authenticated: credsOK(username, password)
+
+// The package initialiser fills readOnlyMethods with exactly these keys and no function
+// of the package updates it afterwards (checked on the SSA of the package, not by a solver).
+//@ constmap[C13] readOnlyMethods = "/build.bazel.remote.execution.v2.ActionCache/GetActionResult", "/build.bazel.remote.execution.v2.ContentAddressableStorage/FindMissingBlobs", "/build.bazel.remote.execution.v2.ContentAddressableStorage/BatchReadBlobs", "/build.bazel.remote.execution.v2.ContentAddressableStorage/GetTree", "/build.bazel.remote.execution.v2.Capabilities/GetCapabilities", "/google.bytestream.ByteStream/Read"
+
+// mTLS: certN counts client-certificate checks by the current invocation, certChecked is the
+// verdict of the last one.
+//@ ghost certN Int
+//@ ghost certChecked Bool
+
+//@ func checkGRPCClientCert(ctx context.Context) error
+//@   serves C13
+//@   requires ctx != nil
+//@   gmodifies certN, certChecked
+//@   gensures certN == old(certN) + 1 && (certChecked <==> (result == nil))
+//@   lensures[C13] verified: result == nil ==> (len(tlsInfo.State.VerifiedChains) != 0 && len(tlsInfo.State.VerifiedChains[0]) != 0)
+
+//@ func GRPCmTLSUnaryServerInterceptor$1(ctx context.Context, req interface{}, info *grpc.UnaryServerInfo, handler grpc.UnaryHandler) (interface{}, error)
+//@   serves C13
+//@   requires info != nil && handler != nil && ctx != nil
+//@   modifies certN, certChecked
+//@   call handler#0 asserts[C13] health: info.FullMethod == "/grpc.health.v1.Health/Check"
+//@   call handler#1 asserts[C13] readonly: allowUnauthenticatedReads && has(readOnlyMethods, info.FullMethod)
+//@   call handler#2 asserts[C13] authenticated: certN == old(certN) + 1 && certChecked
+
+//@ func GRPCmTLSStreamServerInterceptor$1(srv interface{}, ss grpc.ServerStream, info *grpc.StreamServerInfo, handler grpc.StreamHandler) error
+//@   serves C13
+//@   requires info != nil && handler != nil && ss != nil
+//@   modifies certN, certChecked
+//@   call handler#0 asserts[C13] readonly: allowUnauthenticatedReads && has(readOnlyMethods, info.FullMethod)
+//@   call handler#1 asserts[C13] authenticated: certN == old(certN) + 1 && certChecked
+
+// ASSUMED: grpc hands the handler a stream with a context.
+//@ iface (google.golang.org/grpc.ServerStream).Context(s)
+//@   pure
+//@   ensures result != nil
+
+// HTTP, mTLS: hasValidClientCert is the only place that accepts a client certificate.
+//@ iface (net/http.ResponseWriter).Write(w, b)
+//@   pure
+//@ iface (net/http.ResponseWriter).WriteHeader(w, code)
+//@   pure
+//@ iface (net/http.ResponseWriter).Header(w)
+//@   pure
+//@ func (h *httpCache) hasValidClientCert(w http.ResponseWriter, r *http.Request) bool
+//@   serves C13 C14
+//@   requires h != nil && h.accessLogger != nil && w != nil
+//@   requires serverrequest: r != nil && r.URL != nil
+//@   gmodifies certN, certChecked
+//@   gensures certN == old(certN) + 1 && (certChecked <==> result)
+//@   ensures[C13] verified: result ==> (r != nil && r.TLS != nil && len(r.TLS.VerifiedChains) != 0 && len(r.TLS.VerifiedChains[0]) != 0)
+
+// the function literal returned by VerifyClientCertHandler
+//@ func (h *httpCache) VerifyClientCertHandler$1(w http.ResponseWriter, r *http.Request)
+//@   serves C13
+//@   requires h != nil && h.accessLogger != nil && w != nil && wrapMe != nil
+//@   requires serverrequest: r != nil && r.URL != nil
+//@   noframe
+//@   call ServeHTTP#* asserts[C13] authenticated: certN == old(certN) + 1 && certChecked
